@@ -69,6 +69,52 @@ def tiling(size, a, b):
     return cells
 
 
+@harness("C14",
+         params={"size": Int, "a": ATOM(Const(None)), "b": ATOM(Const(None)), "nx": Real, "ny": Real, "nz": Real},
+         requires=["size > 0"],
+         ensures=[
+             # an atom that is added again after a move (no remove in between) is found from its new position
+             "implies(abs(a.x - b.x) < size, abs(a.cell[0] - b.cell[0]) <= size)",
+             "implies(abs(a.y - b.y) < size, abs(a.cell[1] - b.cell[1]) <= size)",
+             "implies(abs(a.z - b.z) < size, abs(a.cell[2] - b.cell[2]) <= size)",
+             "count(result.cellmap[a.cell], a) >= 1",
+         ],
+         name="tiling.readd")
+def tiling_readd(size, a, b, nx, ny, nz):
+    cells = Cells(size)
+    a.x = 1.5
+    a.y = -2.5
+    a.z = 0.0
+    cells.add_cell(a)
+    a.x = nx
+    a.y = ny
+    a.z = nz
+    cells.add_cell(a)
+    cells.add_cell(b)
+    return cells
+
+
+@harness("C14",
+         params={"size1": Int, "size": Int, "a": ATOM(Const(None)), "b": ATOM(Const(None))},
+         requires=["size > 0 and size1 > 0"],
+         ensures=[
+             # an atom that was binned by another cell list before (debump uses its own) is binned here all the same
+             "implies(abs(a.x - b.x) < size, abs(a.cell[0] - b.cell[0]) <= size)",
+             "implies(abs(a.y - b.y) < size, abs(a.cell[1] - b.cell[1]) <= size)",
+             "implies(abs(a.z - b.z) < size, abs(a.cell[2] - b.cell[2]) <= size)",
+             "(a.cell[0] - b.cell[0]) % size == 0",
+             "count(result.cellmap[a.cell], a) == 1",
+         ],
+         name="tiling.second_instance")
+def tiling_second(size1, size, a, b):
+    first = Cells(size1)
+    first.add_cell(a)
+    cells = Cells(size)
+    cells.add_cell(a)
+    cells.add_cell(b)
+    return cells
+
+
 # ---------------------------------------------------------------- remove_cell
 contract(
     "pdb2pqr.cells:Cells.remove_cell", "C14",
